@@ -735,6 +735,15 @@ def _grids(w, n, spacings, offsets=(0, 1, 5), tensor=False):
                 xs.append(xs[-1] + h)
             pts = [Sc(v, frozenset([("grid", i)])) for i, v in enumerate(xs)]
             out.append((xs, w.need_grid(pts)))
+    # placements on which data-derived quantities vanish: the first interval centred at the origin (midpoint exactly 0) and
+    # an interior / last grid point at 0 - a kernel that divides by a midpoint or a grid point divides by an exact zero here
+    for sp in combos[:2] + combos[-1:]:
+        for off in (-Fr(sp[0], 2), -Fr(sp[0])):
+            xs = [off]
+            for h in sp:
+                xs.append(xs[-1] + h)
+            pts = [Sc(v, frozenset([("grid", i)])) for i, v in enumerate(xs)]
+            out.append((xs, w.need_grid(pts)))
     return out
 
 
@@ -756,6 +765,7 @@ def kernel_suite(chk, w, rule, orders=(0, 1, 2, 3), order_pairs=((1, 1), (2, 1),
     from fractions import Fraction as Fr
     from . import interp as _ip
     cs = Cases(chk, rule, w)
+    del _PREMISE_FAILS[:]
     w.I.allow_const_scaling = True
     w.I.int_arith_scopes = ("bspline::internal::",)
     T = w.T
@@ -1055,6 +1065,7 @@ def kernel_suite(chk, w, rule, orders=(0, 1, 2, 3), order_pairs=((1, 1), (2, 1),
                                   "(i+j+1) (b = unit coefficient vectors; exact weights, ring operations only)",
                                   dict(orders=(A, B), points=[str(x) for x in xs], b_interval=Ib, b_power=j), o, ok,
                                   "(got %s, specified %s)" % (_fmt_w(got), _fmt_w(want)))
+    _premise_verdict(cs)
     return cs.flush()
 
 
@@ -1063,8 +1074,21 @@ def _premise(values_agree, ring_only, what):
     grid but the kernel compares or divides by data, agreement for all grids does not follow: that is 'not analysed', not
     a violation (a disagreement on a sampled grid is a violation either way)."""
     if values_agree and not ring_only:
-        raise AnalysisBroken("%s compares or divides by data: its value is not a polynomial of the grid points, the "
-                             "degree+1-widths argument of the kernel check does not apply" % what)
+        # deferred to the end of the suite: a sampled grid on which the values DISAGREE (e.g. the division hits an exact
+        # zero on a placement centred at the origin) is a violation and takes precedence over 'not analysed'
+        _PREMISE_FAILS.append("%s compares or divides by data: its value is not a polynomial of the grid points, the "
+                              "degree+1-widths argument of the kernel check does not apply" % what)
+
+
+_PREMISE_FAILS = []
+
+
+def _premise_verdict(cs):
+    if _PREMISE_FAILS:
+        msg = _PREMISE_FAILS[0]
+        del _PREMISE_FAILS[:]
+        if not any(st.get("bad") for st in cs.stats.values()):
+            raise AnalysisBroken(msg)
 
 
 def _fmt_w(l):
